@@ -267,6 +267,15 @@ func TestC15(t *testing.T) {
 		default:
 			fp := genFramePlan(rt, cells)
 			p.Mode, p.Kind, p.CemiKind, p.Frame = "frame", fp.Kind, fp.CemiKind, fp.Frame
+			// more service families than the one-octet structure length can describe (127 and up): whatever the
+			// length octet then says, Size() is what Pack writes and every octet of it is determined
+			if fam := p.Frame.Fam; fam != nil && rapid.IntRange(0, 2).Draw(rt, "many-families") == 0 {
+				n := rapid.SampledFrom([]int{126, 127, 128, 129, 200, 255, 256, 300}).Draw(rt, "n-families")
+				for len(fam.Families) < n {
+					fam.Families = append(fam.Families, [2]uint8{uint8(len(fam.Families)*7 + 2), uint8(len(fam.Families) + 1)})
+				}
+				rec.Class("families-beyond-length-octet")
+			}
 			// an application unit without payload (the shape of a group read) is encodable too: the
 			// encoder must then write the one mandatory octet itself instead of leaving what was there
 			if c := p.Frame.Cemi; c != nil && c.LData != nil && !c.LData.TPDU.Control && rapid.IntRange(0, 3).Draw(rt, "empty-payload") == 0 {
